@@ -4686,8 +4686,9 @@ impl GlobalInferenceCtx<'_> {
                                 // we must infer it manually because it might not
                                 // have been inferred.
                                 let usize_ty = Ty::UInt(u8::MAX).into();
+                                let size_ty = self.infer_expr(*size)?;
                                 if !self.expect_match(
-                                    self.tys[self.loc][*size],
+                                    size_ty,
                                     ExpectedTy::Concrete(usize_ty),
                                     *size,
                                 ) {
